@@ -272,7 +272,7 @@ func Filter[S ~[]E, E any](slice S, match func(value E) bool) S {
 func Fold[S ~[]E, State, E any](slice S, seed State, acc func(state State, value E) State) State {
 	state := seed
 	for _, v := range slice {
-		seed = acc(state, v)
+		state = acc(state, v)
 	}
 	return state
 }
